@@ -1134,6 +1134,50 @@ def r9_named_value(a, tier):
         rep.fail(wfn.qualname, 'define-defaults', f"for k:'t' [l+:'t'] x:'t' {{m+:'t'}} the model declares {mod_args} -> {res['model']} and the generated parser "
                  f'declares {gen_args} -> {res["generated"]} (AST._define interpreted); required on both sides {want_defaults}: a list name that receives '
                  f'nothing is [] in the model and must be [] in the generated parser', wfn.loc)
+    # (A5) names are declared per OPTION: the model (Choice._parse) declares the names of an option in the option's frame before it parses it, whatever
+    #      the option is; the generator declares through walk_Sequence only, so an option that is NOT a sequence (one named element, an optional
+    #      around one, a closure of list names - what the optimizer leaves of a one-element sequence) must get its declaration elsewhere
+    chp = a.ct.lookup(Q['Choice'], '_parse')
+    for what, mk_opt in (("[a:'t']", lambda: Stub(Q['Optional'], exp=mk_named('Named', 'a'))),
+                         ("{l+:'t'}", lambda: Stub(Q['Closure'], exp=mk_named('NamedList', 'l')))):
+        opt_exp = mk_opt()
+        names = sorted(set(ModelInterp(a).get_attr(opt_exp, 'defines_single')) | set(ModelInterp(a).get_attr(opt_exp, 'defines_list')))
+        option = Stub(Q['Option'], exp=opt_exp)
+        choice = _la(Stub(Q['Choice'], options=[option, Stub(Q['Option'], exp=T())]))
+        ctxrec = Recorder('ctx', raising={})
+        ctxrec.attrs['states'] = Recorder('states', trace=ctxrec.trace)
+        ctxrec.attrs['ast'] = {}
+        try:
+            ModelInterp(a).call_bound(Bound(choice, chp), [ctxrec], {})
+        except Unsupported as e:
+            raise AnalysisError(f'C02.R9: cannot interpret Choice._parse: {e}') from e
+        model_declares = sorted({n_ for t in ctxrec.trace if t[0] == 'define' for part in t[1] for n_ in part})
+        # the generated side: a declaration is printed only by _gen_defines_declaration; it reaches this option iff the handler of the choice or the
+        # handler the option's own class resolves to calls it
+        def declares(fn_, depth=0, seen=None) -> bool:
+            # through the generator's own helper methods (`self._gen_anon_block(.., defines=opt)`), not through the generic dispatch `self.walk(..)`
+            seen = seen if seen is not None else set()
+            if fn_ is None or fn_.qualname in seen or depth > 3:
+                return False
+            seen.add(fn_.qualname)
+            for n_ in walk_no_defs(fn_.node):
+                if isinstance(n_, ast.Call) and isinstance(n_.func, ast.Attribute) and norm(n_.func.value) == 'self':
+                    if n_.func.attr == '_gen_defines_declaration':
+                        return True
+                    if n_.func.attr not in ('walk', 'print', 'indent'):
+                        callee = a.ct.lookup(GEN, n_.func.attr)
+                        if callee is not None and declares(callee, depth + 1, seen):
+                            return True
+            return False
+        w_opt = _find_walker(a, GEN, opt_exp._cls)
+        gen_declares = names if (declares(a.p.func(f'{GEN}.walk_Choice')) or declares(getattr(w_opt, 'fn', None))) else []
+        ok = set(names) <= set(model_declares) and set(names) <= set(gen_declares) or (set(model_declares) & set(names)) == (set(gen_declares) & set(names))
+        rep.add({'option_of_a_choice': what, 'names': names, 'model_declares': model_declares, 'generated_declares': gen_declares, 'ok': ok})
+        if not ok:
+            wfn = a.p.func(f'{GEN}.walk_Choice')
+            rep.fail(wfn.qualname, f'option-declaration:{what}', f'an option `{what}` of a choice (not a sequence): the model declares {model_declares} in the option\'s frame before '
+                     f'parsing it, the generated parser declares {gen_declares}: when the option matches without binding, the model returns {{name: None}} and the generated '
+                     f'parser returns None (`start: [a:\'x\'] | b:\'y\'` on the text `y`)', wfn.loc)
     # (B2) what generated parsers bind is whatever last_node holds, None and falsy values included (shared with C01.R2)
     from .c01 import binding_values
     binding_values(a, rep, 'C02.R9')
@@ -1364,5 +1408,40 @@ def r13_per_call_state(a, tier):
     return per_call_state_ends_with_the_call(a, 'C02.R13')
 
 
+def r14_defaults_do_not_override_directives(a, tier, rule_id='C02.R14'):
+    from ..rules.common import through_locals
+    rep = RuleReport(
+        rule_id,
+        'the directives a generated parser was generated with survive its constructor: Config.override_config(other) applies every non-None field of '
+        '`other`, and a configuration made by ParserConfig.new(...) carries the built-in defaults as non-None fields (parseinfo=False, left_recursion=True, '
+        'memoization=True, trace=False), so such an object is never the OVERRIDING side over the configuration that carries the grammar\'s directives '
+        '(the rule source\'s _config): every `X.override_config(Y)` in tatsu/parsing.py, tatsu/contexts and the parser templates is listed with the origin '
+        'of Y - a caller-supplied object (may be None: nothing is overridden) or a freshly defaulted one',
+        floor=2,
+    )
+    sites = 0
+    for f in a.p.functions.values():
+        if not f.module.name.startswith(('tatsu.parsing', 'tatsu.contexts', 'tatsu.peg.base')):
+            continue
+        for n in walk_no_defs(f.node):
+            if not (isinstance(n, ast.Call) and isinstance(n.func, ast.Attribute) and n.func.attr == 'override_config' and n.args):
+                continue
+            sites += 1
+            arg = n.args[0]
+            origins = [arg]
+            if isinstance(arg, ast.Name):
+                origins = [x.value for x in walk_no_defs(f.node) if isinstance(x, ast.Assign) and any(isinstance(t, ast.Name) and t.id == arg.id for t in x.targets)] or [arg]
+            fresh = [o for o in origins if isinstance(o, ast.Call) and dotted(o.func).endswith(('ParserConfig.new', 'ParserConfig'))]
+            recv_fresh_from_source = 'srcconfig' in norm(n.func.value) or '_config' in norm(through_locals(f, n.func.value))
+            rep.add({'site': f'{f.qualname}: {norm(n)[:70]}', 'overriding_side_is_freshly_defaulted': bool(fresh), 'overridden_side': norm(n.func.value)})
+            if fresh:
+                rep.fail(f.qualname, f'defaults-override:{norm(n.func.value)}', f'`{norm(n)}` in {f.qualname}: the overriding side was made by `{norm(fresh[0])[:60]}` and carries the built-in '
+                         f'defaults as values, the overridden side `{norm(n.func.value)}` carries the settings of the rule source (the grammar\'s directives): @@parseinfo :: True and '
+                         f'@@left_recursion :: False are lost in every generated parser, which the model honours', f'{f.module.relpath}:{n.lineno}')
+    if sites < 2:
+        raise AnalysisError(f'{rule_id}: only {sites} override_config call sites found (hand-confirmed: 3)')
+    return rep
+
+
 RULES = [r1_exhaustive, r2_primitives, r3_rule_transfer, r4_emission, r5_context_free_emission, r6_leaf_literals, r7_generated_configuration,
-         r8_operand_correspondence, r9_named_value, r10_generated_frames, r11_regexpp_literals, r12_generated_rule_names, r13_per_call_state]
+         r8_operand_correspondence, r9_named_value, r10_generated_frames, r11_regexpp_literals, r12_generated_rule_names, r13_per_call_state, r14_defaults_do_not_override_directives]
